@@ -216,8 +216,11 @@ def job_upper_power_of_two(res):
     import mainsetup as ms
     bld = ms.setup_build(); mod = load_module(bld, ms.SETUP_MODS)
     fn = find_fn(mod, 'upper_power_of_two'); ex = Exec(mod, Snapshot(), RealDom()); st = State(); v = z3.BitVec('v', 64); st.pc += [z3.UGE(v, 1), z3.ULE(v, 1 << 62)]
-    s1 = ex.run1(st, fn, [v]); r = s1.retval; res.funcs[fn] = fn_lines(mod, fn); res.paths += 1; res.instrs += s1.nins
-    prove(res, 'upper_power_of_two(v) for every 1 <= v <= 2^62: v <= r < 2v and r is a power of two (64-bit bit-vector semantics of the real code)', s1.pc, z3.Or(z3.ULT(r, v), z3.UGE(r, 2 * v), (r & (r - 1)) != 0), key='pow2-summary')
+    res.funcs[fn] = fn_lines(mod, fn)
+    for s1 in run_paths(ex, st, fn, [v]):      # (an implementation with a case split forks: every path meets the obligation)
+      r = s1.retval; res.paths += 1; res.instrs += s1.nins
+      if isinstance(r, int): r = z3.BitVecVal(r, 64)
+      prove(res, 'upper_power_of_two(v) for every 1 <= v <= 2^62: v <= r < 2v and r is a power of two (64-bit bit-vector semantics of the real code)', s1.pc, z3.Or(z3.ULT(r, v), z3.UGE(r, 2 * v), (r & (r - 1)) != 0), key='pow2-summary')
     witness(res, 'upper_power_of_two is not the identity', s1.pc, r != v)
 
 def job_field_precondition(res, n):
